@@ -666,6 +666,7 @@ def fam_registry(seed, i):
         p = Prog(rng, c, handles[c], w, scripts, cnt)
         p.types = types
         p.acnt = acnt
+        p.cancel_p = 0.15
         sc["clients"][c] = p.run(rng.randint(2, 8))
     return sc
 
